@@ -101,6 +101,9 @@ pub enum Op {
     Req(Value),
     /// cget then cset(version of the answer) appending `token` to the list read
     CasCycle { key: String, token: String },
+    /// cget, then cset of the *same* value with the version read (value-preserving CAS write);
+    /// on an absent key: cset(token, 0)
+    CasRewrite { key: String, token: String },
     /// unsubscribe the n-th (p)subscribe / subscribeLs request of this client
     UnsubNth { n: usize, ls: bool },
     /// publish on the n-th spubInit stream of this client
@@ -386,6 +389,28 @@ impl Client {
                     to_send.push((
                         target,
                         json!({"sPub": {"transactionId": target, "value": value}}).to_string(),
+                    ));
+                }
+                Op::CasRewrite { key, token } => {
+                    let tid = next_tid;
+                    next_tid += 1;
+                    let n0 = count_answers(&shared, tid);
+                    let line = json!({"cGet": {"transactionId": tid, "key": key}}).to_string();
+                    if send_line(&mut w, &hist, idx, tid, &line, i).await.is_err() {
+                        break 'ops;
+                    }
+                    let ans = wait_answer(&shared, tid, n0, answer_wait_us).await;
+                    let (value, version) = match ans {
+                        Some(ServerMessage::CState(c)) => (c.event.value.clone(), c.event.version),
+                        Some(ServerMessage::Err(_)) => (json!(token), 0),
+                        _ => continue 'ops,
+                    };
+                    let tid2 = next_tid;
+                    next_tid += 1;
+                    to_send.push((
+                        tid2,
+                        json!({"cSet": {"transactionId": tid2, "key": key, "value": value, "version": version}})
+                            .to_string(),
                     ));
                 }
                 Op::CasCycle { key, token } => {
